@@ -67,6 +67,12 @@ func (r *c14Rec) fault() bool {
 	return false
 }
 
+// c14Tok renders a lookup result for the model: the bytes and their SHA-256 (the model does not compute hashes).
+func c14Tok(v []byte) string {
+	h := sha256.Sum256(v)
+	return verifkit.Hex(v) + "/" + verifkit.Hex(h[:])
+}
+
 func (r *c14Rec) setGBH(v string) {
 	r.lastGBH = v
 	if len(r.gbhs) < 64 {
@@ -99,7 +105,7 @@ func (s *c14Store) FindByKey(_ context.Context, key []byte) ([]byte, error) {
 		s.rec.ev("sfind %s miss", verifkit.Hex(key))
 		return nil, errors.New("sql: no rows in result set")
 	}
-	s.rec.setGBH(verifkit.Hex(v))
+	s.rec.setGBH(c14Tok(v))
 	s.rec.ev("sfind %s %s", verifkit.Hex(key), verifkit.Hex(v))
 	return append([]byte{}, v...), nil
 }
@@ -133,7 +139,7 @@ func (c *c14Cache) Get(ctx context.Context, key []byte) ([]byte, error) {
 	}
 	v, err := c.inner.Get(ctx, key)
 	if v != nil {
-		c.rec.setGBH(verifkit.Hex(v))
+		c.rec.setGBH(c14Tok(v))
 		c.rec.ev("cget %s %s", verifkit.Hex(key), verifkit.Hex(v))
 	} else {
 		c.rec.ev("cget %s miss", verifkit.Hex(key))
@@ -317,6 +323,7 @@ type c14Env struct {
 	signer *ecdsa.PrivateKey
 	direct *logInfo
 	dback  *c14Backend
+	nWellformed int
 }
 
 type c14Indirect struct {
@@ -345,6 +352,19 @@ func (e *c14Env) mkIndirect(name string, inner cache.IssuanceChainCache) *c14Ind
 	svc := newIndirectIssuanceChainService(st, &c14Cache{rec: rec, inner: inner})
 	b := newC14Backend()
 	return &c14Indirect{name: name, li: e.mkLogInfo(b, svc), back: b, rec: rec, store: st, svc: svc, corruptKind: map[string]string{}}
+}
+
+// fail reports a property failure. verifkit lists only the first 200 failures of a run, so the class of the recorded
+// finding (a well-formed wrong row served with success) is listed at most 40 times and cannot crowd out another one.
+func (e *c14Env) fail(key, detail string) {
+	if strings.Contains(key, "corruption=wellformed-") {
+		e.nWellformed++
+		if e.nWellformed > 40 {
+			e.out.Count("class:failure-not-listed-again:wellformed-wrong-row-served")
+			return
+		}
+	}
+	e.out.Fail(key, detail)
 }
 
 func c14Body(chain [][]byte) string {
@@ -571,7 +591,7 @@ func (e *c14Env) serveL(ind *c14Indirect, i int, eap bool, faultAt int, what, la
 	} else if status >= 500 {
 		ans = "5xx"
 	}
-	e.out.T(fmt.Sprintf("serve %s %s", verifkit.Hex(stored), gbh), ans)
+	e.out.T(fmt.Sprintf("serve %s %s f%s", verifkit.Hex(stored), gbh, verifkit.B(faulted)), ans)
 	// the property
 	corruptSeen := false
 	if what == "corrupt" {
@@ -579,12 +599,12 @@ func (e *c14Env) serveL(ind *c14Indirect, i int, eap bool, faultAt int, what, la
 			ind.rec.mu.Lock()
 			cur, ok := ind.store.m[string(h)]
 			ind.rec.mu.Unlock()
-			corruptSeen = ok && gbh == verifkit.Hex(cur) // the lookup returned the corrupted bytes (not a cached good copy)
+			corruptSeen = ok && gbh == c14Tok(cur) // the lookup returned the corrupted bytes (not a cached good copy)
 		}
 	}
 	switch {
 	case status == 200 && corruptSeen:
-		e.out.Fail(key+" "+ind.corruptKind[string(c14HashOf(stored))], fmt.Sprintf("the stored chain is corrupted (lookup returned %d corrupted bytes) but the entry was served with success (%d bytes of extra_data, in-backend mode has %d)", (len(gbh)+1)/2, len(served), len(want)))
+		e.fail(key+" "+ind.corruptKind[string(c14HashOf(stored))], fmt.Sprintf("the stored chain is corrupted (lookup returned %d corrupted bytes) but the entry was served with success (%d bytes of extra_data, in-backend mode has %d)", (strings.Index(gbh, "/")+1)/2, len(served), len(want)))
 	case status == 200 && string(served) != string(want):
 		e.out.Fail(key, fmt.Sprintf("served extra_data differs from the in-backend mode: got %d bytes, want %d bytes", len(served), len(want)))
 	case status == 200:
@@ -594,7 +614,7 @@ func (e *c14Env) serveL(ind *c14Indirect, i int, eap bool, faultAt int, what, la
 	default:
 		e.out.Fail(key, fmt.Sprintf("status %d without any fault", status))
 	}
-	if status == 200 && (what == "corrupt" || what == "delete") && gbh != "-" && gbh != "err" {
+	if status == 200 && (what == "corrupt" || what == "delete") && gbh != "-" && gbh != "err" && !corruptSeen {
 		// only a cached copy of the right chain may still be served
 		e.out.Count("class:served-from-cache-after-store-damage")
 	}
@@ -725,7 +745,7 @@ func TestVerifC14(t *testing.T) {
 			e.serve(ind, r.Intn(n), r.Bool(), 1+r.Intn(2), "")
 		}
 		// multi-entry ranges: clean, and with a fault at the k-th storage/cache call (mostly on a non-first leaf)
-		for k := 0; k < verifkit.N(16, 200) && n > 3; k++ {
+		for k := 0; k < verifkit.N(10, 200) && n > 3; k++ {
 			ln := 3 + r.Intn(5)
 			a := r.Intn(n - 2)
 			b := a + ln - 1
@@ -778,10 +798,48 @@ func TestVerifC14(t *testing.T) {
 			}
 			ind.rec.mu.Lock()
 			v := ind.store.m[k]
-			kind := r.Intn(9)
+			kind := r.Intn(13)
 			var nv []byte
 			name := ""
 			switch kind {
+			case 9:
+				// well-formed but wrong: the row now holds another submission's chain
+				for _, k2 := range keys {
+					if k2 != k && string(ind.store.m[k2]) != string(v) {
+						if _, _, ok := c14ParseChain(ind.store.m[k2]); ok {
+							nv, name = append([]byte{}, ind.store.m[k2]...), "wellformed-other-submissions-chain"
+							break
+						}
+					}
+				}
+				if name == "" {
+					nv, name = derOf([][]byte{{1, 2, 3}}), "wellformed-other-submissions-chain"
+				}
+			case 10:
+				// well-formed but wrong: the empty chain
+				nv, name = []byte{0x30, 0x00}, "wellformed-empty-sequence"
+				if string(v) == string(nv) {
+					nv, name = derOf([][]byte{{9}}), "wellformed-other-submissions-chain"
+				}
+			case 11:
+				// well-formed but wrong: two certificates swapped
+				if certs, _, ok := c14ParseChain(v); ok && len(certs) >= 2 && string(certs[0]) != string(certs[1]) {
+					sw := append([][]byte{}, certs...)
+					sw[0], sw[1] = sw[1], sw[0]
+					nv, name = derOf(sw), "wellformed-two-certificates-swapped"
+				} else {
+					nv, name = []byte{0x30, 0x00}, "wellformed-empty-sequence"
+					if string(v) == string(nv) {
+						nv, name = derOf([][]byte{{9}}), "wellformed-other-submissions-chain"
+					}
+				}
+			case 12:
+				// well-formed but wrong: the last certificate dropped, lengths fixed up
+				if certs, _, ok := c14ParseChain(v); ok && len(certs) >= 1 {
+					nv, name = derOf(certs[:len(certs)-1]), "wellformed-last-certificate-dropped"
+				} else {
+					nv, name = derOf([][]byte{{9}}), "wellformed-other-submissions-chain"
+				}
 			case 0:
 				delete(ind.store.m, k)
 				damaged[k] = "delete"
@@ -838,7 +896,7 @@ func TestVerifC14(t *testing.T) {
 			e.serve(ind, i, r.Bool(), 0, what)
 		}
 		// ranges over the damaged store: the damaged chain is usually not the first of the range
-		for k := 0; k < verifkit.N(20, 250) && n > 3; k++ {
+		for k := 0; k < verifkit.N(12, 250) && n > 3; k++ {
 			ln := 3 + r.Intn(5)
 			a := r.Intn(n - 2)
 			b := a + ln - 1
@@ -881,7 +939,7 @@ func TestVerifC14(t *testing.T) {
 			ind.rec.mu.Lock()
 			gbh := ind.rec.lastGBH
 			ind.rec.mu.Unlock()
-			out.T(fmt.Sprintf("serve %s %s", verifkit.Hex(junk), gbh), ans)
+			out.T(fmt.Sprintf("serve %s %s f0", verifkit.Hex(junk), gbh), ans)
 			out.Count("class:junk-extra")
 			// keep the direct backend aligned
 			e.dback.fl.QueueLeafF(&trillian.QueueLeafRequest{Leaf: &trillian.LogLeaf{LeafValue: []byte{1}, ExtraData: junk}})
@@ -1010,7 +1068,11 @@ func (e *c14Env) serveRange(ind *c14Indirect, a, b int, faultAt int, state, labe
 				if c14HashOf(en.ExtraData) != nil && string(en.ExtraData) == string(ind.back.extra(a+j)) {
 					form = "the raw hash form stored in the backend"
 				}
-				e.out.Fail(fmt.Sprintf("%s bad-position=%d", key, j), fmt.Sprintf("status 200 but entry %d of the reply (index %d) carries %s (%d bytes) instead of the in-backend extra_data (%d bytes)", j, a+j, form, len(en.ExtraData), len(want)))
+				ck := ""
+				if h := c14HashOf(ind.back.extra(a + j)); h != nil && ind.corruptKind[string(h)] != "" {
+					ck = " " + ind.corruptKind[string(h)]
+				}
+				e.fail(fmt.Sprintf("%s bad-position=%d%s", key, j, ck), fmt.Sprintf("status 200 but entry %d of the reply (index %d) carries %s (%d bytes) instead of the in-backend extra_data (%d bytes)", j, a+j, form, len(en.ExtraData), len(want)))
 				break
 			}
 		}
@@ -1081,7 +1143,7 @@ func (e *c14Env) concurrent(cc c14CacheCfg, pool []c14Sub) {
 	want := sync.Map{} // leaf value -> extra data of the in-backend mode
 	stop := make(chan struct{})
 	writers, readers := 3, 3
-	perWriter := verifkit.N(8, 100)
+	perWriter := verifkit.N(6, 100)
 	for w := 0; w < writers; w++ {
 		rr := e.r.Fork()
 		wg.Add(1)
